@@ -247,6 +247,12 @@ def run_model(ctx, case):
         C = float(E.get_concurrence_2qubit(rho))
         closed = {'eof': float(E.get_eof_2qubit(rho)), 'concurrence': C, 'gme': float(E.get_gme_2qubit(rho))}.get(name, C * C / 2)
         ctx.require(loss >= closed - (1e-7 if name == 'concurrence' else 1e-8), f'{name} model: loss is never below the closed-form value', f'loss={loss} closed={closed} state#{it} scale={case["scale"]}')
+        st_case = case['s1'] if it == 0 else case['s2']
+        if name == 'eof' and st_case['kind'] == 'weak_pure' and not under_rank:
+            lam = 10 ** st_case['eps_exp']  # the exact Schmidt probability of this state: every decomposition of a pure state consists of copies of it
+            if lam >= 1e-13:
+                ctx.require(loss >= h2(lam) * (1 - 1e-3), 'eof model on a weakly entangled pure state: loss = h(lambda) to relative accuracy (no absolute cut-off)', f'loss={loss} h(lambda)={h2(lam)} lambda={lam}')
+                ctx.label('weak pure state in the eof model')
         # the Stiefel point defines an actual decomposition of the CURRENT state
         man = getattr(model, 'manifold', None) or getattr(model, 'manifold_stiefel', None)
         sq = getattr(model, '_sqrt_rho', None)
